@@ -254,7 +254,7 @@ func genC16(e *emitter, tier string) {
 					data[bi.Name] = ints(nelem(sh))
 				}
 				// graphs with transcendental nodes (Softmax, Tanh) are compared up to rounding, the others bit for bit
-				transcendental := pg.name == "batch-axis-inside"
+				transcendental := pg.name == "batch-axis-inside" || pg.name == "negative-axes"
 				e.emit(batchCase("generated:"+pg.name, func() (*gonnx.Model, error) { return loadModel(g) }, g, ins, data, !transcendental))
 			}
 		}
@@ -410,6 +410,28 @@ func perSampleGraphs(e *emitter) []perSample {
 			{Op: "Tanh", Ins: []string{"Yh"}, Outs: []string{"th"}},
 		}, Outputs: []string{"Y", "s", "s0", "ls", "sx", "sx0", "rm", "am", "th"}},
 		[]BatchIn{{"x", []int{3, 0, 2}, 1}}})
+	// reductions and index operators addressed with NEGATIVE axes on inputs of rank 3 and 5 (ranks that are
+	// not a power of two), batch first
+	out = append(out, perSample{"negative-axes", &GraphJ{
+		Inputs: []VInfoJ{{Name: "x", Dt: "f32", Dims: []any{"N", 2, 3}}},
+		Inits:  []InitJ{sh("s5", []int{0, 1, 2, 1, 3}), sh("ix", []int{2, 0}), sh("st", []int{1}), sh("en", []int{3}), sh("axm1", []int{-1})},
+		Nodes: []NodeJ{
+			{Op: "ReduceMax", Attrs: []Attr{{Name: "axes", Type: "ints", Ints: []int64{-1}}}, Ins: []string{"x"}, Outs: []string{"rm"}},
+			{Op: "ReduceMin", Attrs: []Attr{{Name: "axes", Type: "ints", Ints: []int64{-2}}, {Name: "keepdims", Type: "i", I: 0}}, Ins: []string{"x"}, Outs: []string{"rn"}},
+			{Op: "ReduceMax", Attrs: []Attr{{Name: "axes", Type: "ints", Ints: []int64{-1, -2}}, {Name: "keepdims", Type: "i", I: 0}}, Ins: []string{"x"}, Outs: []string{"r2"}},
+			{Op: "ArgMax", Attrs: []Attr{{Name: "axis", Type: "i", I: -1}}, Ins: []string{"x"}, Outs: []string{"am"}},
+			{Op: "ArgMax", Attrs: []Attr{{Name: "axis", Type: "i", I: -2}, {Name: "keepdims", Type: "i", I: 0}}, Ins: []string{"x"}, Outs: []string{"am2"}},
+			{Op: "Reshape", Ins: []string{"x", "s5"}, Outs: []string{"x5"}},
+			{Op: "ReduceMax", Attrs: []Attr{{Name: "axes", Type: "ints", Ints: []int64{-1}}}, Ins: []string{"x5"}, Outs: []string{"rm5"}},
+			{Op: "ReduceMin", Attrs: []Attr{{Name: "axes", Type: "ints", Ints: []int64{-3, -1}}, {Name: "keepdims", Type: "i", I: 0}}, Ins: []string{"x5"}, Outs: []string{"rn5"}},
+			{Op: "ArgMax", Attrs: []Attr{{Name: "axis", Type: "i", I: -3}}, Ins: []string{"x5"}, Outs: []string{"am5"}},
+			{Op: "Gather", Attrs: []Attr{{Name: "axis", Type: "i", I: -1}}, Ins: []string{"x", "ix"}, Outs: []string{"ga"}},
+			{Op: "Concat", Attrs: []Attr{{Name: "axis", Type: "i", I: -1}}, Ins: []string{"x", "x"}, Outs: []string{"cc"}},
+			{Op: "Slice", Ins: []string{"x", "st", "en", "axm1"}, Outs: []string{"sl"}},
+			{Op: "Softmax", Attrs: []Attr{{Name: "axis", Type: "i", I: -2}}, Ins: []string{"x"}, Outs: []string{"sm"}},
+			{Op: "Flatten", Attrs: []Attr{{Name: "axis", Type: "i", I: -2}}, Ins: []string{"x5"}, Outs: []string{"fl"}},
+		}, Outputs: []string{"rm", "rn", "r2", "am", "am2", "rm5", "rn5", "am5", "ga", "cc", "sl", "sm"}},
+		[]BatchIn{{"x", []int{0, 2, 3}, 0}}})
 	// recurrent operators: batch is axis 1 of X and of the states
 	for _, op := range []string{"RNN", "GRU", "LSTM", "GRU-lbr", "LSTM-peep"} {
 		G := map[string]int{"LSTM": 4, "GRU": 3, "RNN": 1, "GRU-lbr": 3, "LSTM-peep": 4}[op]
